@@ -781,6 +781,10 @@ func (s *Session) ExecuteBatchCAS(batch *Batch, dest ...interface{}) (applied bo
 	return applied, iter, nil
 }
 
+// errNoAppliedColumn is returned by the map based CAS helpers when the response
+// has no boolean [applied] column, i.e. the statement was not a conditional one.
+var errNoAppliedColumn = errors.New("gocql: no [applied] column in the response, not a conditional statement")
+
 // MapExecuteBatchCAS executes a batch operation much like ExecuteBatchCAS,
 // however it accepts a map rather than a list of arguments for the initial
 // scan.
@@ -791,12 +795,15 @@ func (s *Session) MapExecuteBatchCAS(batch *Batch, dest map[string]interface{}) 
 		return false, nil, err
 	}
 	iter.MapScan(dest)
-	applied = dest["[applied]"].(bool)
+	applied, ok := dest["[applied]"].(bool)
 	delete(dest, "[applied]")
 
 	// we usually close here, but instead of closing, just returin an error
 	// if MapScan failed. Although Close just returns err, using Close
 	// here might be confusing as we are not actually closing the iter
+	if !ok && iter.err == nil {
+		return false, iter, errNoAppliedColumn
+	}
 	return applied, iter, iter.err
 }
 
@@ -1380,10 +1387,16 @@ func (q *Query) MapScanCAS(dest map[string]interface{}) (applied bool, err error
 		return false, err
 	}
 	iter.MapScan(dest)
-	applied = dest["[applied]"].(bool)
+	applied, ok := dest["[applied]"].(bool)
 	delete(dest, "[applied]")
 
-	return applied, iter.Close()
+	if err := iter.Close(); err != nil {
+		return false, err
+	}
+	if !ok {
+		return false, errNoAppliedColumn
+	}
+	return applied, nil
 }
 
 // Release releases a query back into a pool of queries. Released Queries
